@@ -387,6 +387,10 @@ class Check:
         # evidence/ and replays/ only ever describe runs against /repo itself; a run against another copy
         # (VERIF_REPO, used to test the checks against seeded changes) writes under .build unless told otherwise
         evdir = os.environ.get("VERIF_EVIDENCE_DIR", os.path.join(VERIF, "evidence" if REPO == "/repo" else ".build/evidence-other-repo"))
+        # development entry points that are not properties (e.g. C16B = the backend half of C16 on its own)
+        # never write into evidence/, which holds exactly one file per property
+        if self.pid not in {json.loads(l)["id"] for l in open(os.path.join(VERIF, "properties.jsonl"))}:
+            evdir = os.path.join(VERIF, ".build/evidence-dev")
         os.makedirs(evdir, exist_ok=True)
         json.dump(ev, open(os.path.join(evdir, self.pid + ".json"), "w"), indent=1, sort_keys=True)
         for l in lines: print(l)
